@@ -6,6 +6,7 @@ use serde_json::{json, Value};
 use std::panic;
 
 mod scenarios;
+mod peer;
 
 /// counting allocator: largest single request and number of bytes currently live / peak
 pub mod alloc_probe {
